@@ -467,3 +467,23 @@ M('C15', 'defaults-alias', PI, "        self.default_parameters = dict(M.get_par
 M('C15', 'prior-not-added', PI, "            ln_prob = lp + LL_det_cost", "            ln_prob = LL_det_cost", 'fire', 'R15.5-function-of-theta/DeterministicInference')
 M('C15', 'meas-index-by-position', 'bioscrape/inference.pyx', "        for i in range(self.M):\n            self.meas_indices[i] = self.m.get_species_index(species_list[i])", "        for i in range(self.M):\n            self.meas_indices[i] = i", 'fire', 'R15.2-name-alignment/DeterministicLikelihood')
 M('C15', 'silent-stack-axis', IS, "                data_i = np.array(data_list).T\n", "                data_i = np.stack(data_list, axis = 1)\n", 'silent')
+
+# ------------------------------------------------------------------ C18
+MUTANTS.append({'prop': 'C18', 'name': 'fourth-order-coefficient', 'kind': 'fire', 'expect': 'R18.1-stencil/compute_J/fourth', 'file': AN, 'occurrences': 1,
+                'old': "                    J[i,j]= (-f_2h + 8*f_h - 8*f_mh + f_m2h)/(12*h)", 'new': "                    J[i,j]= (-f_2h + 8*f_h - 8*f_mh + f_m2h)/(10*h)"})
+M('C18', 'central-divisor', AN, "                    J[i,j]= (f_h - f_mh)/(2*h) ", "                    J[i,j]= (f_h - f_mh)/(h) ", 'fire', 'R18.1-stencil/compute_J/central')
+M('C18', 'swapped-fh-fmh', AN, "                Z[i]= (f_h - f_mh)/(2*h) ", "                Z[i]= (f_mh - f_h)/(2*h) ", 'fire', 'R18.1-stencil/compute_Zj/central')
+M('C18', 'transposed-J', AN, "                    J[i,j]= (f_h - f_0)/h", "                    J[j,i]= (f_h - f_0)/h", 'fire', 'R18.2-orientation/compute_J/forward')
+M('C18', 'offset-2h-becomes-h', AN, "                    x[j] = x[j] + 2*h\n", "                    x[j] = x[j] + h\n", 'fire', 'R18.1-stencil/compute_J/fourth')
+M('C18', 'stale-perturbation', AN, "                x = np.array(state_input)\n                x[j] = x[j] - h\n                f_mh", "                x[j] = x[j] - h\n                f_mh", 'fire', 'R18.1-stencil/compute_J')
+M('C18', 'no-restore-after-mh', AN,
+  "            f_mh = self._evaluate_model(x, params_dict, time = time)[i]\n            # Reset\n            params_dict = dict(self.original_parameters)\n            self.M.set_params(params_dict)\n",
+  "            f_mh = self._evaluate_model(x, params_dict, time = time)[i]\n            # Reset\n            params_dict = dict(self.original_parameters)\n", 'fire', 'R18.4-restore/compute_Zj/central')
+M('C18', 'dict-not-reset', AN,
+  "            f_mh = self._evaluate_model(x, params_dict, time = time)[i]\n            # Reset\n            params_dict = dict(self.original_parameters)\n",
+  "            f_mh = self._evaluate_model(x, params_dict, time = time)[i]\n            # Reset\n", 'fire', 'compute_Zj')
+M('C18', 'wrong-component', AN, "                f_h = self._evaluate_model(x, time = time)[i]\n", "                f_h = self._evaluate_model(x, time = time)[j]\n", 'fire', 'R18.1-stencil/compute_J')
+M('C18', 'rules-at-other-time', AN, "        sim.py_apply_repeated_rules(states, time, True)", "        sim.py_apply_repeated_rules(states, 0.0, True)", 'fire', 'R18.3-evaluation-point')
+M('C18', 'original-params-alias', AN, "        self.original_parameters = dict(M.get_parameter_dictionary())", "        self.original_parameters = M.get_parameter_dictionary()", 'fire', 'R18.4-restore/original')
+M('C18', 'silent-inplace-perturb', AN, "                x = np.array(state_input)\n                x[j] = x[j] - h\n                f_mh", "                x[j] = x[j] - 2*h\n                f_mh", 'silent')
+M('C18', 'silent-stencil-rewrite', AN, "                    J[i,j]= (f_h - f_mh)/(2*h) ", "                    J[i,j]= 0.5*(f_h - f_mh)/h ", 'silent')
